@@ -2,8 +2,8 @@
 //
 // Case lines (inputs first, then what the implementation returned):
 //
-//	C16.gen   kind n rooted seed | class ints lens sync dump tips rootedFlag probes answers bits nright
-//	C16.cli   kind n rooted seed nb tofile | exit errflags ntrees unreadable-output dumps ints;… lens;…
+//	C16.gen   kind n rooted seed | class ints lens sync dump tips rootedFlag probes answers bits nright rawbits nleft hashcodes topodepths tipindexes
+//	C16.cli   kind n rooted seed nb tofile variant argv | exit errflags ntrees unreadable-output dumps ints;… lens;…
 //	C16.topo  n rooted via names | class dumps            (via = lib | cli; names may be empty)
 //
 // Randomness: the real function is called after rand.Seed(seed); then the source is re-seeded and
@@ -246,6 +246,11 @@ func doGen(c *core.Ctx, kind string, n int, rooted bool, seed int64) {
 	// bitsets and taxon counts, through the public API
 	var bits [][]string
 	var nright []int
+	// the raw index records, as C04 models them: bit vector in index order, both taxon counts,
+	// HashCode, TopoDepth (-1 = error) per branch; TipIndex of every tip
+	var rawbits strings.Builder
+	var nleft, topod, tipidx []int
+	var hcodes []string
 	bitsOK := true
 	if pp, _ := core.Safe(func() {
 		for _, e := range t.Edges() {
@@ -267,6 +272,28 @@ func doGen(c *core.Ctx, kind string, n int, rooted bool, seed int64) {
 			}
 			bits = append(bits, below)
 			nright = append(nright, e.NumTipsRight())
+			for i := uint(0); i < bs.Len(); i++ {
+				if bs.Test(i) {
+					rawbits.WriteByte('1')
+				} else {
+					rawbits.WriteByte('0')
+				}
+			}
+			rawbits.WriteByte(';')
+			nleft = append(nleft, e.NumTipsLeft())
+			hcodes = append(hcodes, strconv.FormatUint(e.HashCode(), 10))
+			if td, e3 := e.TopoDepth(); e3 == nil {
+				topod = append(topod, td)
+			} else {
+				topod = append(topod, -1)
+			}
+		}
+		for _, name := range tips {
+			idx, e2 := t.TipIndex(name)
+			if e2 != nil {
+				idx = -1
+			}
+			tipidx = append(tipidx, idx)
 		}
 	}); pp {
 		bitsOK = false
@@ -275,7 +302,8 @@ func doGen(c *core.Ctx, kind string, n int, rooted bool, seed int64) {
 	if !bitsOK {
 		bitsField = "NOBITS"
 	}
-	out("ok", a.Dump(), core.StrList(tips), b01(t.Rooted()), core.StrList(probes), ans.String(), bitsField, core.IntList(nright))
+	out("ok", a.Dump(), core.StrList(tips), b01(t.Rooted()), core.StrList(probes), ans.String(), bitsField, core.IntList(nright),
+		rawbits.String(), core.IntList(nleft), termList(hcodes), core.IntList(topod), core.IntList(tipidx))
 }
 
 // parseTrees reads the Newick lines of a command's stdout with the real parser and returns the
@@ -329,22 +357,78 @@ func runCLI(c *core.Ctx, timeout time.Duration, args ...string) core.CLIResult {
 }
 
 // doCLI: one run of `gotree generate <kind> -n nb [-o file]`.
-func doCLI(c *core.Ctx, kind string, n int, rooted bool, seed int64, nb int, toFile bool) {
-	in := []string{kind, strconv.Itoa(n), b01(rooted), strconv.FormatInt(seed, 10), strconv.Itoa(nb), b01(toFile)}
-	args := []string{"generate", cliName[kind], "--seed", strconv.FormatInt(seed, 10), "-n", strconv.Itoa(nb)}
+func doCLI(c *core.Ctx, kind string, n int, rooted bool, seed int64, nb int, toFile bool, variant string) {
+	in := []string{kind, strconv.Itoa(n), b01(rooted), strconv.FormatInt(seed, 10), strconv.Itoa(nb), b01(toFile), variant}
+	sizeFlag, sizeLong := "-l", "--nbtips"
 	if kind == "balanced" {
-		args = append(args, "-d", strconv.Itoa(n))
-	} else {
-		args = append(args, "-l", strconv.Itoa(n))
+		sizeFlag, sizeLong = "-d", "--depth"
 	}
-	if rooted {
-		args = append(args, "-r")
+	var args []string
+	// how the options are spelled (the values asked for are the same)
+	switch variant {
+	case "long":
+		args = []string{"--seed", strconv.FormatInt(seed, 10), "--nbtrees", strconv.Itoa(nb), sizeLong, strconv.Itoa(n)}
+		if rooted {
+			args = append(args, "--rooted")
+		}
+	case "eq":
+		args = []string{"--seed=" + strconv.FormatInt(seed, 10), "--nbtrees=" + strconv.Itoa(nb), sizeLong + "=" + strconv.Itoa(n)}
+		if rooted {
+			args = append(args, "--rooted=true")
+		} else {
+			args = append(args, "--rooted=false")
+		}
+	case "defaults": // size and number of trees left to their defaults (10 tips / depth 3, one tree)
+		args = []string{"--seed", strconv.FormatInt(seed, 10)}
+		if rooted {
+			args = append(args, "-r")
+		}
+	case "threads":
+		args = []string{"-t", "4", "--seed", strconv.FormatInt(seed, 10), "-n", strconv.Itoa(nb), sizeFlag, strconv.Itoa(n)}
+		if rooted {
+			args = append(args, "-r")
+		}
+	case "twice": // an option given twice: the last one counts
+		args = []string{"--seed", "1", sizeFlag, "3", "--seed", strconv.FormatInt(seed, 10), "-n", strconv.Itoa(nb), sizeFlag, strconv.Itoa(n)}
+		if rooted {
+			args = append(args, "-r")
+		}
+	case "noseed": // seeded from the clock: only the oracle applies
+		args = []string{"-n", strconv.Itoa(nb), sizeFlag, strconv.Itoa(n)}
+		if rooted {
+			args = append(args, "-r")
+		}
+	default:
+		variant = "short"
+		in[6] = variant
+		args = []string{"--seed", strconv.FormatInt(seed, 10), "-n", strconv.Itoa(nb), sizeFlag, strconv.Itoa(n)}
+		if rooted {
+			args = append(args, "-r")
+		}
 	}
 	outfile := ""
 	if toFile {
 		outfile = c.TmpFile("")
-		args = append(args, "-o", outfile)
+		if variant == "long" {
+			args = append(args, "--output", outfile)
+		} else if variant == "eq" {
+			args = append(args, "--output="+outfile)
+		} else {
+			args = append(args, "-o", outfile)
+		}
+	} else if variant == "long" {
+		args = append(args, "--output", "-")
 	}
+	// what the model's option parser is given: the options, with the file name made anonymous
+	var argv []string
+	for _, a := range args {
+		if outfile != "" {
+			a = strings.Replace(a, outfile, "FILE", 1)
+		}
+		argv = append(argv, a)
+	}
+	in = append(in, core.StrList(argv))
+	args = append([]string{"generate", cliName[kind]}, args...)
 	r := runCLI(c, 30*time.Second, args...)
 	text := r.Stdout
 	if toFile {
@@ -382,11 +466,26 @@ func doTopo(c *core.Ctx, n int, rooted bool, via string, names []string) {
 			// a star tree carrying the names, in this order
 			file := c.TmpFile("(" + strings.Join(names, ",") + ");\n")
 			args = []string{"generate", "topologies", "-i", file}
+			if len(names)%2 == 0 {
+				// -l next to -i: the number of tips is taken from the input tree
+				args = append(args, "-l", "99")
+			}
 		}
 		if rooted {
 			args = append(args, "-r")
 		}
+		outfile := ""
+		if n%2 == 1 {
+			outfile = c.TmpFile("")
+			args = append(args, "-o", outfile)
+		}
 		r := runCLI(c, 120*time.Second, args...)
+		if outfile != "" {
+			if b, e := os.ReadFile(outfile); e == nil && (r.Exit == 0 || len(b) > 0) {
+				r.Stdout = string(b)
+			}
+			os.Remove(outfile)
+		}
 		dumps, bad := parseTrees(r.Stdout)
 		class := "ok"
 		switch {
@@ -430,11 +529,114 @@ func doTopo(c *core.Ctx, n int, rooted bool, via string, names []string) {
 	c.Emit("C16.topo", append(in, "ok", b.String())...)
 }
 
+// termList: each item followed by ","
+func termList(l []string) string {
+	var b strings.Builder
+	for _, x := range l {
+		b.WriteString(x)
+		b.WriteByte(',')
+	}
+	return b.String()
+}
+
 func sep(d []string) string {
 	if len(d) == 0 {
 		return ""
 	}
 	return "|"
+}
+
+// ---------------------------------------------------------------- the other constructors of treegen.go
+
+func emitTree(c *core.Ctx, op string, in []string, t *tree.Tree, err error, panicked bool, msg string) {
+	switch {
+	case panicked:
+		c.Emit(op, append(in, "panic:"+core.Escape(msg), "")...)
+	case err != nil:
+		c.Emit(op, append(in, "err:"+core.Escape(err.Error()), "")...)
+	case t == nil:
+		c.Emit(op, append(in, "panic:nil-tree", "")...)
+	default:
+		a, wf := core.Alpha(t)
+		if !wf.OK() {
+			c.Emit(op, append(in, "malformed:"+core.Escape(strings.Join(wf.Problems, "; ")), "")...)
+			return
+		}
+		c.Emit(op, append(in, "ok", a.Dump())...)
+	}
+}
+
+func parseList(s string) []string {
+	var out []string
+	if s == "" {
+		return out
+	}
+	for _, x := range strings.Split(strings.TrimSuffix(s, ","), ",") {
+		u, err := core.Unescape(x)
+		if err != nil {
+			panic(err)
+		}
+		out = append(out, u)
+	}
+	return out
+}
+
+func doStarNames(c *core.Ctx, names []string) {
+	in := []string{core.StrList(names)}
+	var t *tree.Tree
+	var err error
+	begin(c, 30*time.Second, "C16.starn", in...)
+	p, msg := core.Safe(func() { t, err = tree.StarTreeFromName(names...) })
+	end()
+	emitTree(c, "C16.starn", in, t, err, p, msg)
+}
+
+func doStarTree(c *core.Ctx, dump string) {
+	in := []string{dump}
+	n, perr := core.ParseDump(dump)
+	if perr != nil {
+		panic(perr)
+	}
+	tin, berr := core.Build(n)
+	if berr != nil {
+		panic(berr)
+	}
+	var t *tree.Tree
+	var err error
+	begin(c, 30*time.Second, "C16.start", in...)
+	p, msg := core.Safe(func() { t, err = tree.StarTreeFromTree(tin) })
+	end()
+	emitTree(c, "C16.start", in, t, err, p, msg)
+}
+
+func doBipart(c *core.Ctx, left, right []string) {
+	in := []string{core.StrList(left), core.StrList(right)}
+	var t *tree.Tree
+	var err error
+	begin(c, 30*time.Second, "C16.bipart", in...)
+	p, msg := core.Safe(func() { t, err = tree.BipartitionTree(left, right) })
+	end()
+	emitTree(c, "C16.bipart", in, t, err, p, msg)
+}
+
+func doEdgeTree(c *core.Ctx, dump string, k int) {
+	in := []string{dump, strconv.Itoa(k)}
+	n, perr := core.ParseDump(dump)
+	if perr != nil {
+		panic(perr)
+	}
+	tin, berr := core.Build(n)
+	if berr != nil {
+		panic(berr)
+	}
+	if e := tin.ReinitIndexes(); e != nil {
+		panic(e)
+	}
+	var t *tree.Tree
+	begin(c, 30*time.Second, "C16.edgetree", in...)
+	p, msg := core.Safe(func() { t = tree.EdgeTree(tin, tin.Edges()[k], nil) })
+	end()
+	emitTree(c, "C16.edgetree", in, t, nil, p, msg)
 }
 
 // Replay re-executes request lines on the real code.
@@ -448,13 +650,25 @@ func Replay(c *core.Ctx, lines []string) {
 			if f[0] == "C16.gen" {
 				doGen(c, f[1], n, f[3] == "1", seed)
 			} else if c.Gotree != "" {
-				nb, toFile := 1, false
+				nb, toFile, variant := 1, false, "short"
 				if len(f) >= 7 {
 					nb, _ = strconv.Atoi(f[5])
 					toFile = f[6] == "1"
 				}
-				doCLI(c, f[1], n, f[3] == "1", seed, nb, toFile)
+				if len(f) >= 8 {
+					variant = f[7]
+				}
+				doCLI(c, f[1], n, f[3] == "1", seed, nb, toFile, variant)
 			}
+		case f[0] == "C16.starn" && len(f) >= 2:
+			doStarNames(c, parseList(f[1]))
+		case f[0] == "C16.start" && len(f) >= 2:
+			doStarTree(c, f[1])
+		case f[0] == "C16.bipart" && len(f) >= 3:
+			doBipart(c, parseList(f[1]), parseList(f[2]))
+		case f[0] == "C16.edgetree" && len(f) >= 3:
+			k, _ := strconv.Atoi(f[2])
+			doEdgeTree(c, f[1], k)
 		case f[0] == "C16.topo" && len(f) >= 4:
 			n, _ := strconv.Atoi(f[1])
 			var names []string
@@ -564,6 +778,12 @@ func emitFailed(c *core.Ctx, req string, class string) {
 	} else {
 		f = append(f, "")
 	}
+	if op := strings.Split(req, "\t")[0]; op == "C16.starn" || op == "C16.start" || op == "C16.bipart" || op == "C16.edgetree" {
+		// only the input fields of these requests go back
+		nin := map[string]int{"C16.starn": 1, "C16.start": 1, "C16.bipart": 2, "C16.edgetree": 2}[op]
+		g := strings.Split(req, "\t")
+		f = append(append([]string{}, g[1:1+nin]...), class, "")
+	}
 	c.Emit(strings.Split(req, "\t")[0], f...)
 }
 
@@ -643,8 +863,8 @@ func childLoop(c *core.Ctx) {
 func reqGen(kind string, n int, rooted bool, seed int64) string {
 	return strings.Join([]string{"C16.gen", kind, strconv.Itoa(n), b01(rooted), strconv.FormatInt(seed, 10)}, "\t")
 }
-func reqCLI(kind string, n int, rooted bool, seed int64, nb int, toFile bool) string {
-	return strings.Join([]string{"C16.cli", kind, strconv.Itoa(n), b01(rooted), strconv.FormatInt(seed, 10), strconv.Itoa(nb), b01(toFile)}, "\t")
+func reqCLI(kind string, n int, rooted bool, seed int64, nb int, toFile bool, variant string) string {
+	return strings.Join([]string{"C16.cli", kind, strconv.Itoa(n), b01(rooted), strconv.FormatInt(seed, 10), strconv.Itoa(nb), b01(toFile), variant}, "\t")
 }
 func reqTopo(n int, rooted bool, via string, names ...string) string {
 	return strings.Join([]string{"C16.topo", strconv.Itoa(n), b01(rooted), via, core.StrList(names)}, "\t")
@@ -727,6 +947,54 @@ func Run(c *core.Ctx) {
 			}
 		}
 	}
+	// the other constructors of treegen.go
+	nextra := c.Scale(40, 400)
+	for i := 0; i < nextra; i++ {
+		// StarTreeFromName: 0..7 names, sometimes one twice
+		names := pickNames(c, c.G.Intn(8))
+		if len(names) >= 2 && c.G.Chance(0.15) {
+			names[len(names)-1] = names[0]
+		}
+		reqs = append(reqs, "C16.starn\t"+core.StrList(names))
+		// StarTreeFromTree / EdgeTree on structured random trees (multifurcations, absent and zero
+		// lengths, single-child nodes, 2..12 tips)
+		o := core.DefaultOpts()
+		o.MinTips, o.MaxTips = 2, 12
+		o.Lengths = 2
+		if c.G.Chance(0.2) {
+			o.Singles = 0.2
+		}
+		tn, _ := c.G.Tree(o)
+		if c.G.Chance(0.15) {
+			// degenerate shape: the root is itself a tip (one neighbour)
+			tn.E = &core.E{Len: 0.5, Sup: -1, Pval: -1, Id: -1}
+			tn = &core.N{Name: "rt", Kids: []*core.N{tn}}
+		}
+		reqs = append(reqs, "C16.start\t"+tn.Dump())
+		o.Singles = 0
+		o.MinTips = 3
+		te, _ := c.G.Tree(o)
+		if c.G.Chance(0.15) {
+			// the root is itself a tip
+			te.E = &core.E{Len: 0.25, Sup: -1, Pval: -1, Id: -1}
+			te = &core.N{Name: "rt", Kids: []*core.N{te}}
+		}
+		if len(te.Kids) >= 1 {
+			ne := te.NNodes() - 1
+			reqs = append(reqs, "C16.edgetree\t"+te.Dump()+"\t"+strconv.Itoa(c.G.Intn(ne)))
+		}
+		// BipartitionTree: sides of 0..4 names; sometimes a common name, sometimes a name twice in a side
+		pool := pickNames(c, 9)
+		nl, nr := c.G.Intn(5), c.G.Intn(5)
+		left, right := append([]string{}, pool[:nl]...), append([]string{}, pool[nl:nl+nr]...)
+		switch {
+		case c.G.Chance(0.2) && nl > 0 && nr > 0:
+			right[c.G.Intn(nr)] = left[c.G.Intn(nl)]
+		case c.G.Chance(0.1) && nl >= 2:
+			left[1] = left[0]
+		}
+		reqs = append(reqs, "C16.bipart\t"+core.StrList(left)+"\t"+core.StrList(right))
+	}
 	// command line
 	if c.Gotree != "" {
 		sizes := []int{-1, 0, 1, 2, 3, 4, 5, 8, 17}
@@ -740,16 +1008,28 @@ func Run(c *core.Ctx) {
 				}
 				// every size with both rootednesses: one tree on stdout; two trees into a file (-o);
 				// three trees on stdout
-				reqs = append(reqs, reqCLI(kind, n, false, 1+newSeed(), 1, false))
-				reqs = append(reqs, reqCLI(kind, n, true, 1+newSeed(), 1, false))
-				reqs = append(reqs, reqCLI(kind, n, n%2 == 0, 1+newSeed(), 2, true))
-				reqs = append(reqs, reqCLI(kind, n, n%2 == 1, 1+newSeed(), 2, true))
-				reqs = append(reqs, reqCLI(kind, n, n%3 == 0, 1+newSeed(), 3, false))
+				reqs = append(reqs, reqCLI(kind, n, false, 1+newSeed(), 1, false, "short"))
+				reqs = append(reqs, reqCLI(kind, n, true, 1+newSeed(), 1, false, "long"))
+				reqs = append(reqs, reqCLI(kind, n, n%2 == 0, 1+newSeed(), 2, true, "short"))
+				reqs = append(reqs, reqCLI(kind, n, n%2 == 1, 1+newSeed(), 2, true, "long"))
+				reqs = append(reqs, reqCLI(kind, n, n%3 == 0, 1+newSeed(), 3, false, "threads"))
+				reqs = append(reqs, reqCLI(kind, n, n%3 == 1, 1+newSeed(), 2, n%2 == 0, "eq"))
+				reqs = append(reqs, reqCLI(kind, n, n%2 == 0, 1+newSeed(), 2, false, "twice"))
+				reqs = append(reqs, reqCLI(kind, n, n%2 == 1, 1+newSeed(), 2, n%3 == 0, "noseed"))
 			}
+			// size and number of trees left to their defaults: 10 tips / depth 3, one tree
+			dn := 10
+			if kind == "balanced" {
+				dn = 3
+			}
+			reqs = append(reqs, reqCLI(kind, dn, false, 1+newSeed(), 1, false, "defaults"))
+			reqs = append(reqs, reqCLI(kind, dn, true, 1+newSeed(), 1, true, "defaults"))
 		}
 		for n := 1; n <= c.Scale(5, 6); n++ {
 			reqs = append(reqs, reqTopo(n, false, "cli"), reqTopo(n, true, "cli"))
-			reqs = append(reqs, reqTopo(n, false, "cli", pickNames(c, n)...), reqTopo(n, true, "cli", pickNames(c, n)...))
+			if n >= 2 { // a one-name input tree would be a tree rooted at a tip
+				reqs = append(reqs, reqTopo(n, false, "cli", pickNames(c, n)...), reqTopo(n, true, "cli", pickNames(c, n)...))
+			}
 		}
 	}
 	execAll(c, reqs)
